@@ -51,24 +51,66 @@ theorem okStr_parts {s : Str} (h : okStr s = true) : s.all isXmlChar = true ∧ 
   simp only [List.all_eq_true, Bool.and_eq_true, decide_eq_true_eq] at h
   exact ⟨by simp only [List.all_eq_true]; exact fun c hc => (h c hc).1, fun hm => (h _ hm).2 rfl⟩
 
-theorem decodeText_escape (s : Str) (h : okStr s = true) : decodeText (escapePy false s) = some s := by
-  have := decodeGo_encode_escape (fun _ => true) (fun _ _ => rfl) false false s (okStr_parts h).1
-    (fun e => by cases e)
-  rw [encodeText_all, ← escapePy_eq_spec] at this
+theorem charRef_chars (c : Char) :
+    '<' ∉ charRef c ∧ '>' ∉ charRef c ∧ '"' ∉ charRef c ∧ '\r' ∉ charRef c ∧ charRef c ≠ [] := by
+  have hd : ∀ x, x ∈ dec c.toNat → isDigit x = true := fun x hx => List.all_eq_true.mp (dec_all_digit c.toNat) x hx
+  have key : ∀ x : Char, isDigit x = false → x ≠ '&' → x ≠ '#' → x ≠ ';' → x ∉ charRef c := by
+    intro x h1 h2 h3 h4 hm
+    simp only [charRef, List.mem_cons, List.mem_append, List.cons_append, List.mem_nil_iff, or_false] at hm
+    rcases hm with hm | hm | hm | hm
+    · exact h2 hm
+    · exact h3 hm
+    · rw [hd x hm] at h1; cases h1
+    · exact h4 hm
+  exact ⟨key '<' (by decide) (by decide) (by decide) (by decide), key '>' (by decide) (by decide) (by decide) (by decide),
+    key '"' (by decide) (by decide) (by decide) (by decide), key '\r' (by decide) (by decide) (by decide) (by decide),
+    by simp [charRef]⟩
+
+/-- text as the serializer escapes it and `encode` then writes it -/
+def encEscStr (rep : Char → Bool) (q : Bool) (s : Str) : Str := encodeText rep (escapePy q s)
+
+theorem encEscStr_chars (rep : Char → Bool) (hr : AsciiRep rep) (q : Bool) (s : Str) :
+    '<' ∉ encEscStr rep q s ∧ '>' ∉ encEscStr rep q s ∧ (q = true → '"' ∉ encEscStr rep q s) ∧
+    ('\r' ∉ s → '\r' ∉ encEscStr rep q s) ∧ (s ≠ [] → encEscStr rep q s ≠ []) := by
+  unfold encEscStr
+  rw [escapePy_eq_spec, encodeText_escapeSpec]
+  induction s with
+  | nil => simp
+  | cons c cs ih =>
+    obtain ⟨b1, b2, b3, b4, _⟩ := ih
+    have hc : '<' ∉ encEsc rep q c ∧ '>' ∉ encEsc rep q c ∧ (q = true → '"' ∉ encEsc rep q c) ∧
+        (c ≠ '\r' → '\r' ∉ encEsc rep q c) ∧ encEsc rep q c ≠ [] := by
+      rw [encEsc_eq rep hr]
+      by_cases h : rep c = true
+      · simp only [h, if_true]; exact escC_chars q c
+      · simp only [h]
+        obtain ⟨r1, r2, r3, r4, r5⟩ := charRef_chars c
+        exact ⟨r1, r2, fun _ => r3, fun _ => r4, r5⟩
+    obtain ⟨a1, a2, a3, a4, a5⟩ := hc
+    simp only [List.flatMap_cons, List.mem_append, not_or]
+    refine ⟨⟨a1, b1⟩, ⟨a2, b2⟩, fun hq => ⟨a3 hq, b3 hq⟩, fun h => ?_, fun _ => ?_⟩
+    · simp only [List.mem_cons, not_or] at h
+      exact ⟨a4 (fun e => h.1 e.symm), b4 h.2⟩
+    · intro e
+      exact a5 (List.append_eq_nil_iff.mp e).1
+
+theorem decodeText_encEsc (rep : Char → Bool) (hr : AsciiRep rep) (s : Str) (h : okStr s = true) :
+    decodeText (encEscStr rep false s) = some s := by
+  have := decodeGo_encode_escape rep hr false false s (okStr_parts h).1 (fun e => by cases e)
+  unfold encEscStr
+  rw [escapePy_eq_spec]
   exact this
 
 /-- the value written between the quotes for an attribute -/
-def encAttr (v : Str) : Str := if v = noneUri then [] else escapePy true v
+def encAttr (rep : Char → Bool) (v : Str) : Str := if v = noneUri then [] else encEscStr rep true v
 
-theorem emitAttrs_eq (attrs : List (Str × Str)) :
-    emitAttrs attrs = emitAttrsWith (attrs.map fun a => (a.1, encAttr a.2)) := by
-  induction attrs with
-  | nil => rfl
-  | cons a rest ih =>
-    obtain ⟨n, v⟩ := a
-    simp only [emitAttrs, emitAttrsWith, List.map_cons, encAttr, ih]
+/-- the attribute list as the serializer writes it and `encode` leaves it when
+    the names are representable -/
+def emitAttrsEnc (rep : Char → Bool) (attrs : List (Str × Str)) : Str :=
+  emitAttrsWith (attrs.map fun a => (a.1, encAttr rep a.2))
 
-theorem attrEnc_encAttr (v : Str) (h : attrValOK v = true) : AttrEnc (encAttr v) (normUri v) := by
+theorem attrEnc_encAttr (rep : Char → Bool) (hr : AsciiRep rep) (v : Str) (h : attrValOK v = true) :
+    AttrEnc (encAttr rep v) (normUri v) := by
   unfold attrValOK at h
   unfold encAttr normUri
   by_cases hv : v = noneUri
@@ -76,21 +118,40 @@ theorem attrEnc_encAttr (v : Str) (h : attrValOK v = true) : AttrEnc (encAttr v)
     exact ⟨by simp, rfl⟩
   · simp only [hv, if_false]
     simp only [hv, decide_false, Bool.false_or, Bool.and_eq_true, List.all_eq_true, decide_eq_true_eq] at h
-    refine ⟨(escapePy_chars true v).2.2.1 rfl, ?_⟩
-    have := decodeGo_encode_escape (fun _ => true) (fun _ _ => rfl) true true v (okStr_parts h.1).1
+    refine ⟨(encEscStr_chars rep hr true v).2.2.1 rfl, ?_⟩
+    have := decodeGo_encode_escape rep hr true true v (okStr_parts h.1).1
       (fun _ c hc => ⟨(h.2 c hc).1, (h.2 c hc).2, fun e => (okStr_parts h.1).2 (e ▸ hc)⟩)
-    rw [encodeText_all, ← escapePy_eq_spec] at this
+    unfold encEscStr
+    rw [escapePy_eq_spec]
     exact this
 
-theorem forall₂_encAttr (attrs : List (Str × Str)) (h : flatAttrsOK attrs = true) :
+theorem forall₂_encAttr (rep : Char → Bool) (hr : AsciiRep rep) (attrs : List (Str × Str))
+    (h : flatAttrsOK attrs = true) :
     List.Forall₂ (fun e a => e.1 = a.1 ∧ validName a.1 = true ∧ AttrEnc e.2 a.2)
-      (attrs.map fun a => (a.1, encAttr a.2)) (normAttrs attrs) := by
+      (attrs.map fun a => (a.1, encAttr rep a.2)) (normAttrs attrs) := by
   induction attrs with
   | nil => exact .nil
   | cons a rest ih =>
     unfold flatAttrsOK at h ih
     simp only [List.all_cons, Bool.and_eq_true] at h
-    refine .cons ⟨rfl, h.1.1, attrEnc_encAttr a.2 h.1.2⟩ (ih h.2)
+    refine .cons ⟨rfl, h.1.1, attrEnc_encAttr rep hr a.2 h.1.2⟩ (ih h.2)
+
+/-! ### the serializer followed by `encode`, when the markup is representable -/
+
+/-- `serStep` with character data and attribute values as `encode` leaves them -/
+def serStepEnc (rep : Char → Bool) (st : SerSt) : FEv → Option (SerSt × Str)
+  | .start name attrs => some (st, '<' :: name ++ emitAttrsEnc rep attrs ++ ['>'])
+  | .empty name attrs => some (st, '<' :: name ++ emitAttrsEnc rep attrs ++ ['/', '>'])
+  | .other (.text s safe) =>
+      if st.inCdata ∨ safe then some (st, s) else some (st, encEscStr rep false s)
+  | e => serStep st e
+
+def serRunEnc (rep : Char → Bool) : SerSt → List FEv → Option Str
+  | _, [] => some []
+  | st, e :: es =>
+      match serStepEnc rep st e with
+      | none => none
+      | some (st', out) => (serRunEnc rep st' es).map (out ++ ·)
 
 /-! ### the token loop -/
 
@@ -136,8 +197,8 @@ namespace Genshi.Xml
 open Genshi Genshi.Escape Genshi.Xml.Reader
 
 /-- what the theorem says about the serialisation of a list of events -/
-structure BodyRes (st : SerSt) (fs : List FEv) (out : Str) : Prop where
-  ser : serRun st fs = some out
+structure BodyRes (rep : Char → Bool) (st : SerSt) (fs : List FEv) (out : Str) : Prop where
+  ser : serRunEnc rep st fs = some out
   nocr : '\r' ∉ out
   head : startsWithText fs = false → out = [] ∨ ∃ r, out = '<' :: r
   tok : ∀ f, out.length < f → tokGo f out = some (tokOf fs)
@@ -148,36 +209,39 @@ theorem nm_app {a b : Str} (ha : '\r' ∉ a) (hb : '\r' ∉ b) : '\r' ∉ a ++ b
 theorem nm_cons {c : Char} {a : Str} (hc : c ≠ '\r') (ha : '\r' ∉ a) : '\r' ∉ c :: a := by
   simp only [List.mem_cons, not_or]; exact ⟨fun e => hc e.symm, ha⟩
 
-theorem cr_not_mem_emitAttrs (a : List (Str × Str)) (h : flatAttrsOK a = true) : '\r' ∉ emitAttrs a := by
+theorem cr_not_mem_emitAttrsEnc (rep : Char → Bool) (hr : AsciiRep rep) (a : List (Str × Str))
+    (h : flatAttrsOK a = true) : '\r' ∉ emitAttrsEnc rep a := by
+  unfold emitAttrsEnc
   induction a with
-  | nil => simp [emitAttrs]
+  | nil => simp [emitAttrsWith]
   | cons x xs ih =>
     obtain ⟨n, v⟩ := x
     unfold flatAttrsOK at h ih
     simp only [List.all_cons, Bool.and_eq_true] at h
     have hn := cr_not_mem_of_validName h.1.1
-    have hv : '\r' ∉ (if v = noneUri then [] else escapePy true v) := by
+    have hv : '\r' ∉ encAttr rep v := by
+      unfold encAttr
       by_cases e : v = noneUri
       · simp [e]
       · simp only [e, if_false]
         have hv := h.1.2
         unfold attrValOK at hv
         simp only [e, decide_false, Bool.false_or, Bool.and_eq_true] at hv
-        exact (escapePy_chars true v).2.2.2.1 (okStr_parts hv.1).2
+        exact (encEscStr_chars rep hr true v).2.2.2.1 (okStr_parts hv.1).2
     have := ih h.2
-    simp only [emitAttrs]
+    simp only [List.map_cons, emitAttrsWith]
     exact nm_app (nm_app (nm_cons (by decide) hn) (nm_cons (by decide) (nm_cons (by decide) hv)))
       (nm_cons (by decide) this)
 
 /-- one piece of markup in front of an already handled tail; `mid` is what the
     tokenizer sees between the markup and the tail (the line break after a DOCTYPE) -/
-theorem body_glue (st st' : SerSt) (pre es : List FEv) (m : Str) (out' : Str) (toks : List FEv)
-    (ih : BodyRes st' es out')
-    (hser : serRun st (pre ++ es) = (serRun st' es).map (('<' :: m) ++ ·))
+theorem body_glue (rep : Char → Bool) (st st' : SerSt) (pre es : List FEv) (m : Str) (out' : Str) (toks : List FEv)
+    (ih : BodyRes rep st' es out')
+    (hser : serRunEnc rep st (pre ++ es) = (serRunEnc rep st' es).map (('<' :: m) ++ ·))
     (htake : takeMarkup (m ++ out') = some (toks, out'))
     (htoks : tokOf (pre ++ es) = toks ++ tokOf es)
     (hcr : '\r' ∉ m) :
-    BodyRes st (pre ++ es) ('<' :: (m ++ out')) := by
+    BodyRes rep st (pre ++ es) ('<' :: (m ++ out')) := by
   refine ⟨by rw [hser, ih.ser]; simp, ?_, fun _ => Or.inr ⟨_, rfl⟩, ?_⟩
   · simp only [List.mem_cons, List.mem_append, not_or]
     exact ⟨by decide, hcr, ih.nocr⟩
@@ -190,6 +254,11 @@ theorem serRun_cons (st : SerSt) (e : FEv) (es : List FEv) :
     serRun st (e :: es) = match serStep st e with
       | none => none
       | some (st', out) => (serRun st' es).map (out ++ ·) := rfl
+
+theorem serRunEnc_cons (rep : Char → Bool) (st : SerSt) (e : FEv) (es : List FEv) :
+    serRunEnc rep st (e :: es) = match serStepEnc rep st e with
+      | none => none
+      | some (st', out) => (serRunEnc rep st' es).map (out ++ ·) := rfl
 
 theorem sysidOK_parts {sy : Str} (h : sysidOK sy = true) :
     sy ≠ [] ∧ okStr sy = true ∧ ¬ ('"' ∈ sy ∧ '\'' ∈ sy) := by
@@ -287,7 +356,7 @@ theorem doctype_piece (n : Str) (p s : Option Str) (h : doctypeOK n p s = true) 
           rw [this]; rfl
 
 /-- a line break in front of markup (or the end) is a text token of its own -/
-theorem ws_res (st : SerSt) (es : List FEv) (out' : Str) (r : BodyRes st es out')
+theorem ws_res (rep : Char → Bool) (st : SerSt) (es : List FEv) (out' : Str) (r : BodyRes rep st es out')
     (hnt : startsWithText es = false) :
     '\r' ∉ '\n' :: out' ∧ ∀ f, ('\n' :: out').length < f → tokGo f ('\n' :: out') = some (wsTok :: tokOf es) := by
   refine ⟨nm_cons (by decide) r.nocr, ?_⟩
@@ -299,8 +368,9 @@ theorem ws_res (st : SerSt) (es : List FEv) (out' : Str) (r : BodyRes st es out'
   rfl
 
 
-theorem tokGo_content (dt : Bool) (fs : List FEv) (h : contentOK dt fs = true) :
-    ∀ (st : SerSt), st.inCdata = false → (dt = true → st.haveDoctype = false) → ∃ out, BodyRes st fs out := by
+theorem tokGo_content (rep : Char → Bool) (hr : AsciiRep rep) (dt : Bool) (fs : List FEv)
+    (h : contentOK dt fs = true) :
+    ∀ (st : SerSt), st.inCdata = false → (dt = true → st.haveDoctype = false) → ∃ out, BodyRes rep st fs out := by
   fun_induction contentOK dt fs
   · -- []
     intro st _ _
@@ -310,28 +380,28 @@ theorem tokGo_content (dt : Bool) (fs : List FEv) (h : contentOK dt fs = true) :
     intro st hst hdt
     simp only [Bool.and_eq_true] at h
     obtain ⟨out', r⟩ := ih h.2 st hst hdt
-    refine ⟨_, body_glue st st [FEv.start n a] es (n ++ emitAttrs a ++ ['>']) out' (List.map normF [FEv.start n a]) r ?_ ?_ (by simp [tokOf, normF]) ?_⟩
-    · simp [serRun_cons, serStep, emitStart]
-    · have := takeMarkup_start n _ _ false out' h.1.1 (forall₂_encAttr a h.1.2)
-      simpa [emitAttrs_eq, normF] using this
-    · exact nm_app (nm_app (cr_not_mem_of_validName h.1.1) (cr_not_mem_emitAttrs a h.1.2)) (by decide)
+    refine ⟨_, body_glue rep st st [FEv.start n a] es (n ++ emitAttrsEnc rep a ++ ['>']) out' (List.map normF [FEv.start n a]) r ?_ ?_ (by simp [tokOf, normF]) ?_⟩
+    · simp [serRunEnc_cons, serStepEnc]
+    · have := takeMarkup_start n _ _ false out' h.1.1 (forall₂_encAttr rep hr a h.1.2)
+      simpa [emitAttrsEnc, normF] using this
+    · exact nm_app (nm_app (cr_not_mem_of_validName h.1.1) (cr_not_mem_emitAttrsEnc rep hr a h.1.2)) (by decide)
   · -- empty
     rename_i dt n a es ih
     intro st hst hdt
     simp only [Bool.and_eq_true] at h
     obtain ⟨out', r⟩ := ih h.2 st hst hdt
-    refine ⟨_, body_glue st st [FEv.empty n a] es (n ++ emitAttrs a ++ ['/', '>']) out' (List.map normF [FEv.empty n a]) r ?_ ?_ (by simp [tokOf, normF]) ?_⟩
-    · simp [serRun_cons, serStep, emitStart]
-    · have := takeMarkup_start n _ _ true out' h.1.1 (forall₂_encAttr a h.1.2)
-      simpa [emitAttrs_eq, normF] using this
-    · exact nm_app (nm_app (cr_not_mem_of_validName h.1.1) (cr_not_mem_emitAttrs a h.1.2)) (by decide)
+    refine ⟨_, body_glue rep st st [FEv.empty n a] es (n ++ emitAttrsEnc rep a ++ ['/', '>']) out' (List.map normF [FEv.empty n a]) r ?_ ?_ (by simp [tokOf, normF]) ?_⟩
+    · simp [serRunEnc_cons, serStepEnc]
+    · have := takeMarkup_start n _ _ true out' h.1.1 (forall₂_encAttr rep hr a h.1.2)
+      simpa [emitAttrsEnc, normF] using this
+    · exact nm_app (nm_app (cr_not_mem_of_validName h.1.1) (cr_not_mem_emitAttrsEnc rep hr a h.1.2)) (by decide)
   · -- end
     rename_i dt n es ih
     intro st hst hdt
     simp only [Bool.and_eq_true] at h
     obtain ⟨out', r⟩ := ih h.2 st hst hdt
-    refine ⟨_, body_glue st st [FEv.end_ n] es ('/' :: n ++ ['>']) out' (List.map normF [FEv.end_ n]) r ?_ ?_ (by simp [tokOf, normF]) ?_⟩
-    · simp [serRun_cons, serStep, emitEnd]
+    refine ⟨_, body_glue rep st st [FEv.end_ n] es ('/' :: n ++ ['>']) out' (List.map normF [FEv.end_ n]) r ?_ ?_ (by simp [tokOf, normF]) ?_⟩
+    · simp [serRunEnc_cons, serStepEnc, serStep, emitEnd]
     · have := takeMarkup_end n out' h.1
       simpa [normF] using this
     · exact nm_app (nm_cons (by decide) (cr_not_mem_of_validName h.1)) (by decide)
@@ -343,14 +413,14 @@ theorem tokGo_content (dt : Bool) (fs : List FEv) (h : contentOK dt fs = true) :
     subst hsafe
     obtain ⟨out', r⟩ := ih hes st hst hdt
     have hs : s ≠ [] := by intro e; simp [e] at hne
-    obtain ⟨c1, c2, _, c4, c5⟩ := escapePy_chars false s
-    refine ⟨escapePy false s ++ out', ?_, ?_, fun hh => by simp [startsWithText] at hh, ?_⟩
-    · simp [serRun_cons, serStep, hst, r.ser]
+    obtain ⟨c1, c2, _, c4, c5⟩ := encEscStr_chars rep hr false s
+    refine ⟨encEscStr rep false s ++ out', ?_, ?_, fun hh => by simp [startsWithText] at hh, ?_⟩
+    · simp [serRunEnc_cons, serStepEnc, hst, r.ser]
     · exact nm_app (c4 (okStr_parts hok).2) r.nocr
     · intro f hf
       obtain ⟨g, rfl⟩ : ∃ g, f = g + 1 := ⟨f - 1, by simp at hf; omega⟩
       have hpos := List.length_pos_of_ne_nil (c5 hs)
-      rw [tokGo_text g _ s out' (c5 hs) c1 c2 (decodeText_escape s hok) (r.head hnt),
+      rw [tokGo_text g _ s out' (c5 hs) c1 c2 (decodeText_encEsc rep hr s hok) (r.head hnt),
         r.tok g (by simp at hf; omega)]
       simp [normF, tokOf]
   · -- comment
@@ -361,8 +431,8 @@ theorem tokGo_content (dt : Bool) (fs : List FEv) (h : contentOK dt fs = true) :
     have hc := h.1
     unfold commentOK at hc
     simp only [Bool.and_eq_true, Bool.not_eq_true'] at hc
-    refine ⟨_, body_glue st st [FEv.other (.comment s)] es ('!' :: '-' :: '-' :: (s ++ ['-', '-', '>'])) out' (List.map normF [FEv.other (.comment s)]) r ?_ ?_ (by simp [tokOf, normF]) ?_⟩
-    · simp [serRun_cons, serStep]
+    refine ⟨_, body_glue rep st st [FEv.other (.comment s)] es ('!' :: '-' :: '-' :: (s ++ ['-', '-', '>'])) out' (List.map normF [FEv.other (.comment s)]) r ?_ ?_ (by simp [tokOf, normF]) ?_⟩
+    · simp [serRunEnc_cons, serStepEnc, serStep]
     · have := takeMarkup_comment s out' (okStr_parts hc.1).1 hc.2
       simpa [normF] using this
     · exact nm_cons (by decide) (nm_cons (by decide) (nm_cons (by decide) (nm_app (okStr_parts hc.1).2 (by decide))))
@@ -375,8 +445,8 @@ theorem tokGo_content (dt : Bool) (fs : List FEv) (h : contentOK dt fs = true) :
     unfold piOK at hp
     simp only [Bool.and_eq_true, Bool.not_eq_true', decide_eq_true_eq] at hp
     obtain ⟨⟨⟨⟨⟨p1, p2⟩, p3⟩, p4⟩, p5⟩, p6⟩ := hp
-    refine ⟨_, body_glue st st [FEv.other (.pi t d)] es ('?' :: (t ++ ' ' :: d ++ ['?', '>'])) out' (List.map normF [FEv.other (.pi t d)]) r ?_ ?_ (by simp [tokOf, normF]) ?_⟩
-    · simp [serRun_cons, serStep]
+    refine ⟨_, body_glue rep st st [FEv.other (.pi t d)] es ('?' :: (t ++ ' ' :: d ++ ['?', '>'])) out' (List.map normF [FEv.other (.pi t d)]) r ?_ ?_ (by simp [tokOf, normF]) ?_⟩
+    · simp [serRunEnc_cons, serStepEnc, serStep]
     · have := takeMarkup_pi t d out' p1 (by simpa using p2) p3 (okStr_parts p4).1 p5 p6
       simpa [normF] using this
     · exact nm_cons (by decide) (nm_app (nm_app (cr_not_mem_of_validName p1) (nm_cons (by decide) (okStr_parts p4).2))
@@ -391,9 +461,9 @@ theorem tokGo_content (dt : Bool) (fs : List FEv) (h : contentOK dt fs = true) :
     unfold cdataOK at hcd
     simp only [Bool.and_eq_true, Bool.not_eq_true'] at hcd
     have hst' : ({ st with inCdata := false } : SerSt) = st := by cases st; simp_all
-    refine ⟨_, body_glue st st [FEv.other .startCdata, FEv.other (.text s false), FEv.other .endCdata] es ('!' :: '[' :: 'C' :: 'D' :: 'A' :: 'T' :: 'A' :: '[' :: (s ++ [']', ']', '>'])) out' (List.map normF [FEv.other .startCdata, FEv.other (.text s false), FEv.other .endCdata]) r ?_ ?_ (by simp [tokOf, normF]) ?_⟩
-    · simp only [List.cons_append, List.nil_append, serRun_cons, serStep, hst, Bool.false_eq_true, false_or,
-        if_true]
+    refine ⟨_, body_glue rep st st [FEv.other .startCdata, FEv.other (.text s false), FEv.other .endCdata] es ('!' :: '[' :: 'C' :: 'D' :: 'A' :: 'T' :: 'A' :: '[' :: (s ++ [']', ']', '>'])) out' (List.map normF [FEv.other .startCdata, FEv.other (.text s false), FEv.other .endCdata]) r ?_ ?_ (by simp [tokOf, normF]) ?_⟩
+    · simp only [List.cons_append, List.nil_append, serRunEnc_cons, serStepEnc, serStep, hst, Bool.false_eq_true,
+        false_or, if_true]
       simp [hst', r.ser]
     · have := takeMarkup_cdata s out' (okStr_parts hcd.1).1 hcd.2
       simp only [hne, Bool.false_eq_true, if_false] at this
@@ -405,8 +475,8 @@ theorem tokGo_content (dt : Bool) (fs : List FEv) (h : contentOK dt fs = true) :
     intro st hst hdt
     obtain ⟨out', r⟩ := ih h st hst hdt
     have hst' : ({ st with inCdata := false } : SerSt) = st := by cases st; simp_all
-    refine ⟨_, body_glue st st [FEv.other .startCdata, FEv.other .endCdata] es ('!' :: '[' :: 'C' :: 'D' :: 'A' :: 'T' :: 'A' :: '[' :: ([] ++ [']', ']', '>'])) out' (List.map normF [FEv.other .startCdata, FEv.other .endCdata]) r ?_ ?_ (by simp [tokOf, normF]) ?_⟩
-    · simp only [List.cons_append, List.nil_append, serRun_cons, serStep, hst]
+    refine ⟨_, body_glue rep st st [FEv.other .startCdata, FEv.other .endCdata] es ('!' :: '[' :: 'C' :: 'D' :: 'A' :: 'T' :: 'A' :: '[' :: ([] ++ [']', ']', '>'])) out' (List.map normF [FEv.other .startCdata, FEv.other .endCdata]) r ?_ ?_ (by simp [tokOf, normF]) ?_⟩
+    · simp only [List.cons_append, List.nil_append, serRunEnc_cons, serStepEnc, serStep, hst]
       simp [hst', r.ser]
     · have := takeMarkup_cdata [] out' (by simp) (by decide)
       simpa [normF] using this
@@ -420,9 +490,9 @@ theorem tokGo_content (dt : Bool) (fs : List FEv) (h : contentOK dt fs = true) :
     have hhd := hdt rfl
     obtain ⟨out', r⟩ := ih hes { st with haveDoctype := true } hst (fun e => by cases e)
     obtain ⟨m, hm1, hm2, _, hm3⟩ := doctype_piece n p s hd
-    obtain ⟨w1, w2⟩ := ws_res _ es out' r hnt
+    obtain ⟨w1, w2⟩ := ws_res rep _ es out' r hnt
     refine ⟨'<' :: (m ++ '\n' :: out'), ?_, ?_, fun _ => Or.inr ⟨_, rfl⟩, ?_⟩
-    · simp [serRun_cons, serStep, hhd, hm1, r.ser]
+    · simp [serRunEnc_cons, serStepEnc, serStep, hhd, hm1, r.ser]
     · exact nm_cons (by decide) (nm_app hm2 w1)
     · intro f hf
       obtain ⟨g, rfl⟩ : ∃ g, f = g + 1 := ⟨f - 1, by simp at hf; omega⟩
